@@ -183,6 +183,18 @@ impl TransportState {
 
 #[cfg(feature = "verif-hooks")]
 impl TransportState {
+    /// Verification hook (read-only): a dump of the private transport state, used by external
+    /// model-checking harnesses as a state de-duplication key only.
+    #[must_use]
+    pub fn verif_fingerprint(&self) -> crate::utils::VerifDump {
+        let mut out = crate::utils::VerifDump::new();
+        self.cipherstates.0.verif_dump(&mut out);
+        self.cipherstates.1.verif_dump(&mut out);
+        out.push(u8::from(self.initiator));
+        out.push(u8::from(self.rs.is_on()));
+        out
+    }
+
     /// Verification hook: set the forthcoming *outbound* nonce value, so that a harness can place
     /// the stateful sender next to the 2^64-1 boundary.
     pub fn verif_set_sending_nonce(&mut self, nonce: u64) {
